@@ -168,7 +168,12 @@ def main(argv=None):
     dumpdir = tempfile.mkdtemp(prefix="symx-smt2-") if (tier == "thorough" or os.environ.get("SYMX_SECOND_OPINION")) else None
     for li, lv in enumerate(levels):
         remaining = total_budget - (time.time() - t_start)
-        share = remaining / max(1, (len(levels) - li)) if tier == "quick" else remaining
+        left = max(1, len(levels) - li)
+        # fair share of what is left (a level that finishes early leaves its time to the later ones);
+        # thorough levels may take up to twice their share as long as every later level keeps a minimum
+        share = remaining / left
+        if tier != "quick":
+            share = min(remaining - 45.0 * (left - 1), share * 2.0)
         budget = max(5.0, min(remaining, lv.get("budget", share)))
         if remaining < 5.0:
             level_reports.append({"level": lv["name"], "params": lv, "complete": False, "skipped": True, "paths": 0})
@@ -261,6 +266,10 @@ def main(argv=None):
 
     required = list(getattr(mod, "REQUIRED", []))
     missing = [l for l in required if l not in all_labels] if not args.level else []
+    if missing and not all(l.get("complete") for l in level_reports):
+        # the guard is only meaningful when every level ran to completion; an interrupted run says so instead
+        print("[%s] note: labels not reached in this interrupted run: %s" % (prop, missing))
+        missing = []
     exhaustive = bool(level_reports) and all(l.get("complete") for l in level_reports) and total.unknown == 0 and total.realised == 0
     completed = [l["level"] for l in level_reports if l.get("complete")]
 
